@@ -153,9 +153,11 @@ CHECKS = {
        "The asynchronous front-end's whole schedule is proved (C10_async_class_a_window_schedule / _class_c_): on a radio that accepts every call and hears nothing, after ANY successful "
        "uplink (every MAC state, payload, lead time <= 100 ms) the device makes exactly the calls tx, timer.reset, [low power | Class C: continuous RX on the RX2 parameters], "
        "timer.at(RxDelay1 + 100 - lead), setup_rx(the RX1 window computed when the uplink was built), rx_single, then the same one second later with the RX2 window, and nothing else; "
+       "likewise nb_device (C10_nb_class_a_window_schedule): TimeoutRequest((RxDelay1 + end of TX + offset) mod 2^32), RxRequest(RX1 window of the uplink), close after 100 ms, "
+       "RxRequest(RX2 window) one second after RX1, close, conclude, MAC untouched in between; "
        "both front-end models (Model/AsyncDev.v, Model/NbDev.v) are tied to the code by the front-end correspondence stages of this check.",
   note=COMMON_NOTE + "The radio's own symbol timeout / preamble detection is outside (C17). The schedule theorem is stated for the quiet radio (no fault, nothing heard); other scripts are covered by "
-       "the correspondence and the timing oracle only. The nb_device timing arithmetic (i32/u32 casts) is modelled and diffed, its schedule not stated as a theorem. Timer resolution/jitter is the embedded timer's.",
+       "the correspondence and the timing oracle only. The schedule theorems take the radio's Timings (offset -15 ms, duration 100 ms for the scripted radio) as the model's constants. Timer resolution/jitter is the embedded timer's.",
   tech="machine-checked proof in Coq (regional window functions vs RP002 rules, total over all inputs; async front-end call schedule for every uplink) + translator-regenerated region tables + MAC-history and front-end correspondence + RP002 oracle + front-end timer oracle", ref="6 C10"),
  "C11": dict(
   text="Coq theorems (Props/C11.v) for arbitrary cipher/MAC functions with 16-byte outputs: join_otaa emits exactly the 23-byte JoinRequest of the spec (identifiers, DevNonce = draw mod 2^16, "
